@@ -9,6 +9,11 @@ ROOT = '/tmp/regr'
 FALLBACK = ['C20', 'C14', 'C16', 'C07', 'C06', 'C01', 'C02', 'C12', 'C13', 'C17', 'C18', 'C04', 'C05', 'C08', 'C19', 'C03', 'C11']
 
 
+# checks other than the seed's own that report it (DESIGN 9.5), tried right after the own check
+HINTS = {'C04-b': ['C13'], 'C07-c': ['C13'], 'C02-d': ['C14'], 'C09-g': ['C07'], 'C18-g': ['C07'], 'C05-g': ['C20'], 'C05-h': ['C16'], 'C08-h': ['C20'], 'C14-g': ['C01'],
+         'C18-h': ['C16'], 'C04-g': ['C06', 'C20']}
+
+
 def sh(cmd, **kw):
     return subprocess.run(cmd, shell=True, capture_output=True, text=True, **kw)
 
@@ -47,7 +52,8 @@ def worker(k, seeds):
             prop = seed.split('-')[0]
         prop = prop if prop.startswith('C') and len(prop) == 3 else seed.split('-')[0]
         tried = []
-        for pid in [prop] + [p for p in FALLBACK if p != prop]:
+        hint = HINTS.get(seed, [])
+        for pid in [prop] + hint + [p for p in FALLBACK if p != prop and p not in hint]:
             t0 = time.time()
             code, line = run_check(repo, ver, pid)
             tried.append({'check': pid, 'exit': code, 'seconds': round(time.time() - t0)})
@@ -79,6 +85,10 @@ def main():
     for r in res:
         allr.update(r)
     head = subprocess.run('git -C /repo log --format=%h -1', shell=True, capture_output=True, text=True).stdout.strip()
+    if only and os.path.exists('/verif/seeded/REGRESSION.json'):
+        prev = json.load(open('/verif/seeded/REGRESSION.json'))['results']
+        prev.update(allr)
+        allr = prev
     json.dump({'repo_head': head, 'seeds': len(allr), 'reported': sum(1 for v in allr.values() if v['status'] == 'reported'),
                'reported_by_own_check': sum(1 for v in allr.values() if v.get('own_check')), 'results': dict(sorted(allr.items()))},
               open('/verif/seeded/REGRESSION.json', 'w'), indent=1)
